@@ -138,11 +138,20 @@ example : IsProb (fun _ : Fin 2 => (1 / 2 : ℝ)) := ⟨fun _ => by norm_num, by
 end commuting
 
 open scoped MatrixOrder ComplexOrder in
-/-- two clauses of the general statement below that do not need spectral theory (any dimension, Mathlib's `CFC.sqrt`): the
+/-- two clauses of the general statement below (any dimension, Mathlib's `CFC.sqrt`): the
     Uhlmann fidelity is a nonnegative real number, and `F(ρ, ρ) = (tr ρ)²` — 1 for every density matrix. -/
 theorem uhlmann_nonneg_and_self {ι : Type} [Fintype ι] [DecidableEq ι] (ρ σ : Matrix ι ι ℂ) (hρ : ρ.PosSemidef) :
     0 ≤ C17B.uhlmann ρ σ ∧ C17B.uhlmann ρ ρ = (Matrix.trace ρ) ^ 2 :=
   ⟨C17B.uhlmann_nonneg ρ σ, C17B.uhlmann_self ρ hρ⟩
+
+open scoped MatrixOrder ComplexOrder in
+/-- **The Uhlmann fidelity is symmetric** (any dimension, arbitrary — also non-commuting — positive semidefinite `ρ`, `σ`):
+    `(tr √(√ρ σ √ρ))² = (tr √(√σ ρ √σ))²`.  With `A = √ρ`, `B = √σ` the two matrices under the root are `(AB)(AB)†` and
+    `(AB)†(AB)`, which have the same characteristic polynomial, hence the same eigenvalues, and the trace of the positive
+    square root is the sum of the square roots of the eigenvalues. -/
+theorem uhlmann_symmetric {ι : Type} [Fintype ι] [DecidableEq ι] (ρ σ : Matrix ι ι ℂ) (hρ : ρ.PosSemidef)
+    (hσ : σ.PosSemidef) : C17B.uhlmann ρ σ = C17B.uhlmann σ ρ :=
+  C17B.uhlmann_symm ρ σ hρ hσ
 
 /-- the full statement for arbitrary (non-commuting) density matrices, kept visible.  It is **not expressible** in the
     exact model (matrix square roots of irrational spectra) and is not proved: `uhlmann ρ σ` stands for
